@@ -101,3 +101,54 @@ def parse(text, include_cc=True, extra_models=()):
         warnings.simplefilter("always")
         p.parse(include_ccdecays=include_cc)
     return p, [str(x.message)[:60] for x in w]
+
+
+# ------------------------------------------------------------------ front-end cross-check (the model of C02 on this property's texts)
+def to_tree_form(stmts):
+    """decgen statement forms -> the forms py/dectree.py reads off Lark's tree (and coq/Dec/FrontEnd.enc_stmt prints)"""
+    def mdl(model, params, is_label):
+        if is_label:
+            return ["L", model]
+        return ["N", model, [list(p) for p in params] if params else None]
+    out = []
+    for st in stmts:
+        k = st[0]
+        if k == "Decay":
+            out.append(["Decay", st[1], [[l["bf"], list(l["fs"]), bool(l.get("photos")), mdl(l["model"], l.get("params"), l.get("label", False))] for l in st[2]]])
+        elif k == "ModelAlias":
+            out.append(["ModelAlias", st[1], mdl(st[2], st[3], len(st) > 4 and st[4])])
+        else:
+            out.append(list(st))
+    return out
+
+
+def front_end_check(ck, tag, cases, impl_rejected=()):
+    """Dec/FrontEnd.parse_text (scanner + statement automaton on the regenerated lexical configuration) applied to every case's text
+    must give the statement list the case's model term is built from.  A text the front-end model rejects is a model gap (a word the
+    lexer would cut in two), counted, unless the implementation rejects it too."""
+    import vlib
+    import tr_layout
+    from vlib import cstr
+    try:
+        tr_layout.main()
+    except RuntimeError as e:
+        ck.notes["front_end_cross_check"] = {"translator_error": str(e)[:300]}
+        ck.broken_tie("translator", "py/tr_layout.py refused the compiled grammar: " + str(e)[:200],
+                      {"theorem_or_correspondence": "translator py/tr_layout.py (front-end cross-check)"})
+        return
+    terms = [f"enc_result (parse_text gen_cfg {cstr(c['text'])})" for c in cases]
+    mv = vlib.run_model(tag, ["Dec.ModelName", "Dec.Syntax", "Dec.Layout", "Dec.ItemParser", "Dec.FrontEnd", "Gen.GenLayout"], "fun v : val => v", terms, shard=60)
+    diffs, gaps = [], 0
+    for i, (c, v) in enumerate(zip(cases, mv)):
+        if v == to_tree_form(c["stmts"]):
+            continue
+        if isinstance(v, dict):
+            gaps += 1
+        else:
+            diffs.append(i)
+    ck.notes["front_end_cross_check"] = {"texts": len(cases), "agree": len(cases) - len(diffs) - gaps, "model_gaps": gaps, "differ": len(diffs)}
+    if diffs:
+        i = diffs[0]
+        ck.broken_tie("correspondence", f"front end: parse_text of the rendered text is not the statement list the model was given, in {len(diffs)} of {len(cases)} cases",
+                      {"cases": [cases[i]], "model_front_end": mv[i], "expected": to_tree_form(cases[i]["stmts"]),
+                       "theorem_or_correspondence": "front-end cross-check of py/decpost.py (Dec/FrontEnd.parse_text vs the generator's statement list)"})
